@@ -115,6 +115,20 @@ def run(ctx):
                                 fc = None
                             if fc is not None and df.dominates(tgt, bb):
                                 texts.append(fc.shape())
+                        if not texts:
+                            # `f.write_str(self.as_str())`: the arm only chooses the text, one write after the match emits it
+                            ws_ = [(b2, t2) for b2, t2 in df.calls() if t2.j.get("callee_name") == "write_str" and b2 in reg]
+                            if len(ws_) == 1:
+                                alts_ = [a_.strip() for a_ in prim.flatten_phi(prim.resolve_promoted(df, prim.origin_of_operand(df, ws_[0][1].args[1])))]
+                                mine = []
+                                for bb in sorted(reg):
+                                    if not df.dominates(tgt, bb):
+                                        continue
+                                    for s_ in df.blocks[bb].stmts:
+                                        if s_.rv is not None and s_.rv.k == "use" and s_.rv.ops and s_.rv.ops[0].kind == "const" and s_.rv.ops[0].const.get("k") == "str":
+                                            mine.append(s_.rv.ops[0].const_value())
+                                if len(mine) == 1 and all(a_.k == "const" for a_ in alts_) and mine[0] in [a_.a.get("v") for a_ in alts_]:
+                                    texts = [mine[0].replace("{", "{{").replace("}", "}}")]
                         got[names.get(lab, lab)] = texts
         for v, w in want.items():
             ctx.ob("R1", "delimiter:%s" % v, got.get(v) == [w], "PrintDelimiter::%s is displayed as %r; must be exactly %r (one byte, nothing else)" % (v, got.get(v), w), fn=df, how="discriminant dispatch + decoded template")
